@@ -47,9 +47,27 @@ def structure(draw, max_chains=3, nmax=6, wild=False, contact=True, waters=True,
     return desc
 
 
+@st.composite
+def window_structure(draw, waters=True):
+    """G2: a contiguous window of a real structure (+ nearby crystal waters), optionally with a
+    generated second chain in contact."""
+    ch = dict(id=draw(st.sampled_from(["A", "B", "K"])), start=draw(st.sampled_from([1, 17, 250])),
+              window=dict(file=draw(st.integers(0, 5)), first=draw(st.integers(0, 5000)), len=draw(st.integers(3, 14)),
+                          maxwat=draw(st.integers(0, 6)) if waters else 0),
+              q=draw(strat.quat()), shift=[draw(strat.fl(-30.0, 30.0)) for _ in range(3)], ter=True)  # fmt: skip
+    chains = [ch]
+    if draw(st.integers(0, 3)) == 0:
+        c2 = draw(strat.chain(cid="Q", nmin=1, nmax=3, variants=0))
+        c2["contact"] = draw(strat.contact())
+        chains.append(c2)
+    return dict(chains=chains, waters=[])
+
+
 def resolve_drops(desc):
     """Turn drop_spec (indices) into concrete [res_index, atom] lists (deterministic)."""
     for ch in desc["chains"]:
+        if "window" in ch:
+            continue
         spec = ch.get("drop_spec")
         if not spec or "drop" in ch:
             continue
@@ -100,15 +118,23 @@ class Analysis:
     pass
 
 
-def expected_for(desc, opts):
+def ss_from_records(s):
+    """Cysteines that are disulfide-bonded according to the coordinates (mutual, exclusive)."""
+    sg = {(r["group"][1], r["group"][2]): r["xyz"] for r in s.records if r["name"] == "SG" and r["group"][0] == "chain"}
+    near = {k: [j for j in sg if j != k and float(np.linalg.norm(sg[k] - sg[j])) < 2.5] for k in sg}
+    return {k for k, v in near.items() if len(v) == 1 and near[v[0]] == [k]}
+
+
+def expected_for(desc, opts, s=None):
     """Per (chain index, residue index): expected final state from the descriptor."""
     neutraln = "--neutraln" in opts
     neutralc = "--neutralc" in opts
     out = {}
+    bonded = ss_from_records(s) if s is not None else set()
     for ci, ch in enumerate(desc["chains"]):
         n = len(ch["seq"])
         for i, name in enumerate(ch["seq"]):
-            ss = (ci, i) in {tuple(x) for x in desc.get("ss", [])}
+            ss = (ci, i) in {tuple(x) for x in desc.get("ss", [])} or (ci, i) in bonded
             out[(ci, i)] = topo.expected_state(
                 name, i == 0, i == n - 1, neutraln=neutraln, neutralc=neutralc, ss=ss
             )
@@ -120,6 +146,9 @@ def counts(desc, s: build.Structure):
     heavy = sum(1 for r in s.records if r["group"][0] == "chain" and topo.heavy(r["name"]))
     missing = 0
     for ch in desc["chains"]:
+        if "window" in ch:
+            missing += ch.get("window_missing", 0)
+            continue
         missing += len(ch.get("drop", []))
         if not ch.get("oxt", True):
             missing += 1
@@ -139,11 +168,15 @@ def normalise(desc, opts=()):
         desc["waters"] = []  # oxygen-only waters cannot be parameterised without adding atoms
     heavy = 0
     for ch in desc["chains"]:
+        if "window" in ch:
+            continue  # real data: whatever is missing is missing
         for rn in ch["seq"]:
             t = topo.RES[topo.BASE.get(rn, rn)]["atoms"]
             heavy += sum(1 for a in t if topo.heavy(a))
     budget = 0 if strict else int(REPAIR_LIMIT * heavy * 0.9)
     for ch in desc["chains"]:
+        if "window" in ch:
+            continue
         need = len(ch.get("drop", [])) + (0 if ch.get("oxt", True) else 1)
         if need == 0:
             continue
@@ -172,7 +205,7 @@ def analyse(desc, ff, opts, s, r) -> Analysis:
     A = Analysis()
     A.desc, A.ff, A.opts, A.s, A.run = desc, ff, opts, s, r
     A.problems = []  # structural problems found while relating (C03-type)
-    A.expected = expected_for(desc, opts)
+    A.expected = expected_for(desc, opts, s)
     # input atoms by coordinate
     A.inp = {}
     coord_index = {}
